@@ -89,6 +89,7 @@ var Mapping = seq.Mapping{
 	"svc": seq.NewSingleType(seq.TokenizerTypeKeyword, "", 0),
 	"num": seq.NewSingleType(seq.TokenizerTypeKeyword, "", 0),
 	"u":   seq.NewSingleType(seq.TokenizerTypeKeyword, "", 0),
+	"big": seq.NewSingleType(seq.TokenizerTypeKeyword, "", 0),
 	// fields of nested elements (the store only needs them to parse queries)
 	"n.a": seq.NewSingleType(seq.TokenizerTypeKeyword, "", 0),
 	"n.b": seq.NewSingleType(seq.TokenizerTypeKeyword, "", 0),
